@@ -221,3 +221,44 @@ package kcache
   exit [events-replay-to-new-content] (and (= mirrorD {dom(c.items)}) (forall ((k Key)) (=> (select {dom(c.items)} k) (= (select mirrorV k) (select {val(c.items)} k)))))
   exit [returns-events] (= result {events})
 @*/
+
+/*@ func (*kcache._cache).doRefilter
+  props C01 C02 C07
+  theory sync
+  requires [valid-c] (and (not (= {c} vnil)) (not (= {c.items} vnil)) (not (= {c.log} vnil)) (not (= {filter} vnil)))
+  requires [list-nonnil] (forall ((j Int)) (=> (and (<= 0 j) (< j (slen {list}))) (not (= (select (sarr {list}) j) vnil))))
+  requires [wf] (WFitems {dom(c.items)} {val(c.items)})
+  modifies c.items[] c.filter
+  ensures [filter-installed] (= {c.filter} {filter})
+  ensures [wf] (WFitems {dom(c.items)} {val(c.items)})
+  ensures [all-accepted] (AllAccepted {c.filter} {dom(c.items)} {val(c.items)})
+  ensures [missing-from-list-absent] (forall ((k Key)) (=> (select {dom(c.items)} k) (listedBefore {list} (slen {list}) k)))
+  ensures [never-regress] (neverRegress (old {dom(c.items)}) (old {val(c.items)}) {dom(c.items)} {val(c.items)})
+  ensures [exact-for-keys-listed-once] (forall ((k Key)) (=> (uniq {list} k) (and
+        (=> (not (listedBefore {list} (slen {list}) k)) (not (select {dom(c.items)} k)))
+        (forall ((j Int)) (=> (and (<= 0 j) (< j (slen {list})) (wfAt {list} j) (= (keyAt {list} j) k))
+            (and (= (select {dom(c.items)} k) (stepDom (select (old {dom(c.items)}) k) (select (old {val(c.items)}) k) {c.filter} (select (sarr {list}) j)))
+                 (=> (select {dom(c.items)} k)
+                     (= (select {val(c.items)} k) (stepVal (select (old {dom(c.items)}) k) (select (old {val(c.items)}) k) {c.filter} (select (sarr {list}) j))))))))))
+@*/
+
+/*@ func (*kcache._cache).doList
+  props C01 C15
+  theory sync
+  requires [valid-c] (and (not (= {c} vnil)) (not (= {c.items} vnil)))
+  requires [wf] (WFitems {dom(c.items)} {val(c.items)})
+  loop 1 inv [elements-are-cached-objects] (forall ((j Int)) (=> (and (<= 0 j) (< j (slen {result})))
+        (let ((o (select (sarr {result}) j)))
+          (and (not (= o vnil)) (select $visited (keyOf o)) (select {dom(c.items)} (keyOf o)) (= o (eobj (select {val(c.items)} (keyOf o))))))))
+  loop 1 inv [visited-listed] (forall ((k Key)) (=> (select $visited k)
+        (exists ((j Int)) (and (<= 0 j) (< j (slen {result})) (= (keyOf (select (sarr {result}) j)) k)))))
+  loop 1 inv [keys-distinct] (forall ((j1 Int) (j2 Int)) (=> (and (<= 0 j1) (< j1 j2) (< j2 (slen {result})))
+        (not (= (keyOf (select (sarr {result}) j1)) (keyOf (select (sarr {result}) j2))))))
+  ensures [elements-are-cached-objects] (forall ((j Int)) (=> (and (<= 0 j) (< j (slen result)))
+        (let ((o (select (sarr result) j)))
+          (and (not (= o vnil)) (select {dom(c.items)} (keyOf o)) (= o (eobj (select {val(c.items)} (keyOf o))))))))
+  ensures [every-cached-object-listed] (forall ((k Key)) (=> (select {dom(c.items)} k)
+        (exists ((j Int)) (and (<= 0 j) (< j (slen result)) (= (keyOf (select (sarr result) j)) k)))))
+  ensures [keys-distinct] (forall ((j1 Int) (j2 Int)) (=> (and (<= 0 j1) (< j1 j2) (< j2 (slen result)))
+        (not (= (keyOf (select (sarr result) j1)) (keyOf (select (sarr result) j2))))))
+@*/
